@@ -200,6 +200,11 @@ class Scale(EnvironmentFilter):
     def _get_shift_and_scale(self,values) -> Tuple[float,float]:
         try:
             values = [v for v in values if v is not None]
+
+            if not all(isinstance(v,(int,float)) for v in values):
+                #not a numeric feature (given numbers for shift and scale would otherwise be applied to it)
+                return None
+
             shift = self._shift_value(values)
             scale = self._scale_value(values,shift)
 
